@@ -1,5 +1,6 @@
 """C08 — a compilation is independent of earlier traces and failures in the process."""
 import concurrent.futures
+import hashlib
 import json
 import os
 import random
@@ -31,6 +32,69 @@ def dup_input_prog(prog):
     return dict(prog, stmts=st, outs=list(prog["outs"]) + [("d1", "P0", "dupa"), ("d2", "P0", "dupb")])
 
 
+def tie_source_tables(ctx, rng, ncases):
+    """the state-machine model of the source tables (Model/SourceRef.v, parameters regenerated from the source) against the
+    real functions, on random operation sequences run one after the other in one process"""
+    bases, dirs = ["a.py", "b.py", "prog.py"], ["x", "y", "z"]
+    cases = []
+    for _ in range(ncases):
+        ops = []
+        if rng.random() < 0.8:
+            ops.append(["compile"])
+        for _ in range(rng.choice([1, 2, 4, 7])):
+            k = rng.random()
+            if k < 0.45:
+                b = rng.choice(bases)
+                ops.append(["touch", f"{rng.choice(dirs)}/{b}", rng.choice(["one\ntwo\n", "ALPHA\n", "x = 1\ny = 2\nz = 3", "", "same"])])
+            elif k < 0.9:
+                ops.append(["index", rng.choice(bases + ["ghost.py"]), rng.randrange(1, 4), rng.choice([0, 4, 10]), rng.choice([0, 3, 5])])
+            else:
+                ops.append(["compile"])
+        cases.append(ops)
+    d = tempfile.mkdtemp(prefix="nadaverif_c08src_")
+    try:
+        rc, out, err, dt = vlib.run([vlib.PY, os.path.join(vlib.VERIF, "tools", "impl_srctabs.py")], 300, cwd="/", env=vlib.impl_env(),
+                                    input=json.dumps({"root": d, "cases": cases}))
+    finally:
+        shutil.rmtree(d, ignore_errors=True)
+    if rc != 0 or "[" not in out:
+        raise RuntimeError("impl_srctabs.py failed: " + vlib.clean_noise(err)[-800:])
+    res = json.loads(out[out.index("["):])
+
+    def g_op(op):
+        if op[0] == "touch":
+            return f"(OTouch {vlib.gstr('/' + op[1])} {vlib.gstr(op[1].split('/')[-1])} {vlib.gstr(op[2])})"
+        if op[0] == "index":
+            return f"(OIndex {{| s_file := {vlib.gstr(op[1])}; s_line := {vlib.gz(op[2])}; s_off := {vlib.gz(op[3])}; s_len := {vlib.gz(op[4])} |}})"
+        return "OCompileStart"
+    items = []
+    for ops, r in zip(cases, res):
+        refs = vlib.glist([f"{{| s_file := {vlib.gstr(x[0])}; s_line := {vlib.gz(x[1])}; s_off := {vlib.gz(x[2])}; s_len := {vlib.gz(x[3])} |}}" for x in r["refs"]])
+        files = vlib.glist([f"({vlib.gstr(k)}, {vlib.gstr(v)})" for k, v in r["files"].items()])
+        items.append(f"({vlib.glist([g_op(o) for o in ops])}, {refs}, {files})")
+    text = ("From Coq Require Import ZArith List String Bool.\nFrom NadaV.Model Require Import Mir SourceRef.\n"
+            "From NadaV.Gen Require GenFrontend GenSourceRef.\nImport ListNotations.\nOpen Scope string_scope.\n"
+            "Definition resets := smem \"SourceRef.reset_refs\" GenFrontend.cleared && forallb (fun x => smem x GenSourceRef.sr_reset_clears) [\"REFS\"; \"index_map\"; \"next_index\"].\n"
+            "Definition stp := tstep resets GenSourceRef.sr_cache_checks_path.\n"
+            "Fixpoint refs_eqb (a b : list sref0) : bool := match a, b with [] , [] => true | x :: a', y :: b' => sref0_eqb x y && refs_eqb a' b' | _, _ => false end.\n"
+            "Definition files_eqb (a b : list (string * string)) : bool := forallb (fun x => existsb (fun y => String.eqb (fst x) (fst y) && String.eqb (snd x) (snd y)) b) a "
+            "&& forallb (fun x => existsb (fun y => String.eqb (fst x) (fst y) && String.eqb (snd x) (snd y)) a) b.\n"
+            "Fixpoint go (cs : list (list sop * list sref0 * list (string * string))) (s : stabs) (i : Z) : list Z := match cs with [] => [] | (ops, rs, fs) :: r => "
+            "let s' := fold_left stp ops s in (if refs_eqb (emit_refs s') rs && files_eqb (emit_files GenSourceRef.sr_sources_filtered s') fs then [] else [i]) ++ go r s' (i + 1)%Z end.\n"
+            f"Eval vm_compute in (go {vlib.glist(items)} {{| t_refs := []; t_cache := [] |}} 0%Z).\n")
+    rc, o, e, dt = vlib.eval_cases(ctx, "c08_srctabs", text, 600)
+    if rc != 0:
+        ctx.broken.append(dict(kind="correspondence", what="source-table model evaluation failed", detail=(o + e)[-1000:]))
+        return
+    dis = vlib.parse_zlist(vlib.parse_evals(o)[0])
+    ctx.note(f"tie: source-table state machine vs the real SourceRef functions / start of nada_dsl_to_nada_mir on {len(cases)} consecutive operation "
+             f"sequences in one process: {len(dis)} disagree")
+    ctx.cov["source_table_sequences"] = len(cases)
+    if dis:
+        ctx.broken.append(dict(kind="correspondence", what="source-table model and implementation disagree",
+                               detail=json.dumps(dict(first_disagreeing_case=dis[0], sequences_so_far=cases[:dis[0] + 1], observed=res[dis[0]]))[:3000]))
+
+
 def run(ctx):
     ok_x = vlib.step_extract(ctx)
     ok_p = vlib.step_prove(ctx) if ok_x else False
@@ -50,6 +114,10 @@ def run(ctx):
             kind = rng.choice(["complete", "complete", "abort", "dup"])
             if kind == "abort":
                 k = rng.randrange(0, len(cands[i]["stmts"]) + 1)
+                # a plain `def` passed to map/reduce is wrapped (and allocates its ids) at its first use; the surface
+                # statement SDef stands for definition + wrapping, so a prefix must not end between the two
+                while k > 0 and cands[i]["stmts"][k - 1].get("form") == "plain":
+                    k -= 1
                 steps.append(("abort", i, k))
             else:
                 steps.append((kind, i, None))
@@ -67,8 +135,10 @@ def run(ctx):
         def one(hi):
             steps, probe, timers = hists[hi]
             paths = []
+            same = (hi % 2 == 0)
             for si, (kind, i, k) in enumerate(steps):
-                path = os.path.join(d, f"h{hi}_s{si}.py")
+                os.makedirs(os.path.join(d, f"h{hi}", f"s{si}"), exist_ok=True)
+                path = os.path.join(d, f"h{hi}", f"s{si}", "prog.py" if same else f"step{si}.py")
                 if kind == "complete":
                     txt = surface.to_python(cands[i])
                 elif kind == "abort":
@@ -77,9 +147,10 @@ def run(ctx):
                     txt = surface.to_python(dup_input_prog(cands[i]))
                 open(path, "w").write(txt)
                 paths.append(path)
-            pp = os.path.join(d, f"h{hi}_probe.py")
+            os.makedirs(os.path.join(d, f"h{hi}", "probe"), exist_ok=True)
+            pp = os.path.join(d, f"h{hi}", "probe", "prog.py")
             open(pp, "w").write(surface.to_python(cands[probe]))
-            sp = os.path.join(d, f"h{hi}.json")
+            sp = os.path.join(d, f"h{hi}", "spec.json")
             json.dump({"steps": paths, "probe": pp, "timers": timers is True, "probe_twice": timers == "twice"}, open(sp, "w"))
             rc, out, err, dt = vlib.run([vlib.PY, os.path.join(vlib.VERIF, "tools", "run_history.py"), sp], 180, cwd=d,
                                         env=vlib.impl_env())
@@ -105,6 +176,17 @@ def run(ctx):
                 items.append(f"(HComplete {surface.to_gallina(cands[i])})")
         return vlib.glist(items)
     head = progrun.HEAD + "From NadaV.Spec Require Import MirSpec Equiv.\n"
+
+    def g_tabs(res, own):
+        """source tables of a MIR with the program's own file name normalised"""
+        if "ok" not in res:
+            return "{| st_files := []; st_refs := [] |}"
+        m = res["ok"]
+        nm = lambda f: "<program>" if f == own else f
+        files = vlib.glist([f"({vlib.gstr(nm(f))}, {vlib.gstr(hashlib.md5(t.encode()).hexdigest())})" for f, t in m["source_files"].items()])
+        refs = vlib.glist([f"{{| sr_file := {vlib.gstr(nm(r['file']))}; sr_line := {vlib.gz(r['lineno'])}; sr_off := {vlib.gz(r['offset'])}; "
+                           f"sr_len := {vlib.gz(r['length'])} |}}" for r in m["source_refs"]])
+        return f"{{| st_files := {files}; st_refs := {refs} |}}"
     per = 12
     shards = []
     for s in range(0, len(hists), per):
@@ -112,34 +194,41 @@ def run(ctx):
         for hi in range(s, min(len(hists), s + per)):
             steps, probe, timers = hists[hi]
             items.append(f"({g_steps(steps)}, {surface.to_gallina(cands[probe])}, {mirprint.g_ioutcome(after[hi])}, "
-                         f"{mirprint.g_ioutcome(fresh[probe])})")
+                         f"{mirprint.g_ioutcome(fresh[probe])}, {g_tabs(after[hi], 'prog.py')}, {g_tabs(fresh[probe], f'prog_{probe}.py')})")
         shards.append((s, items))
 
     def eval_shard(args):
         s, items = args
-        text = head + "Definition cases : list (list hstep * program * ioutcome * ioutcome) :=\n  [" + ";\n   ".join(items) + "].\n"
-        text += ("Eval vm_compute in (indices_where (fun c : list hstep * program * ioutcome * ioutcome => "
-                 "let '(h, p, a, f) := c in match a, f with IOk ma, IOk mf => negb (mir_equivb ma mf) | _, _ => true end) cases 0%Z).\n")
+        text = head + "Definition cases : list (list hstep * program * ioutcome * ioutcome * srctabs * srctabs) :=\n  [" + ";\n   ".join(items) + "].\n"
+        text += ("Eval vm_compute in (indices_where (fun c : list hstep * program * ioutcome * ioutcome * srctabs * srctabs => "
+                 "let '(h, p, a, f, ta, tf) := c in match a, f with IOk ma, IOk mf => negb (mir_equivb ma mf) | _, _ => true end) cases 0%Z).\n")
+        text += ("Eval vm_compute in (indices_where (fun c : list hstep * program * ioutcome * ioutcome * srctabs * srctabs => "
+                 "let '(h, p, a, f, ta, tf) := c in match a, f with IOk ma, IOk mf => Z.eqb (sources_diff ta tf) 1 | _, _ => false end) cases 0%Z).\n")
+        text += ("Eval vm_compute in (indices_where (fun c : list hstep * program * ioutcome * ioutcome * srctabs * srctabs => "
+                 "let '(h, p, a, f, ta, tf) := c in match a, f with IOk ma, IOk mf => Z.eqb (sources_diff ta tf) 2 | _, _ => false end) cases 0%Z).\n")
         rc, o, e, dt = vlib.eval_cases(ctx, f"c08_spec_{s}", text, 900)
         if rc != 0:
             raise RuntimeError("cases c08_spec failed: " + (o + e)[-1200:])
-        bad = [s + i for i in vlib.parse_zlist(vlib.parse_evals(o)[0])]
+        evs = vlib.parse_evals(o)
+        bad = [s + i for i in vlib.parse_zlist(evs[0])]
+        srcbad = [(s + i, "files") for i in vlib.parse_zlist(evs[1])] + [(s + i, "refs") for i in vlib.parse_zlist(evs[2])]
         dis = None
         if ok_x:
             cleared = "(smem \"FUNCTIONS\" GenFrontend.cleared)"
             text2 = head + "From NadaV.Gen Require GenScalar GenFrontend.\n" + \
-                "Definition cases : list (list hstep * program * ioutcome * ioutcome) :=\n  [" + ";\n   ".join(items) + "].\n" + \
-                ("Eval vm_compute in (indices_where (fun c : list hstep * program * ioutcome * ioutcome => "
-                 f"let '(h, p, a, f) := c in negb (outcome_agrees (run_after GenScalar.G {cleared} h p) a)) cases 0%Z).\n")
+                "Definition cases : list (list hstep * program * ioutcome * ioutcome * srctabs * srctabs) :=\n  [" + ";\n   ".join(items) + "].\n" + \
+                ("Eval vm_compute in (indices_where (fun c : list hstep * program * ioutcome * ioutcome * srctabs * srctabs => "
+                 f"let '(h, p, a, f, ta, tf) := c in negb (outcome_agrees (run_after GenScalar.G {cleared} h p) a)) cases 0%Z).\n")
             rc, o, e, dt = vlib.eval_cases(ctx, f"c08_model_{s}", text2, 900)
             if rc != 0:
                 raise RuntimeError("cases c08_model failed: " + (o + e)[-1200:])
             dis = [s + i for i in vlib.parse_zlist(vlib.parse_evals(o)[0])]
-        return bad, dis
-    bad, dis = [], []
+        return bad, dis, srcbad
+    bad, dis, srcbad = [], [], []
     with concurrent.futures.ThreadPoolExecutor(max_workers=vlib.NCPU) as ex:
-        for b, d2 in ex.map(eval_shard, shards):
+        for b, d2, sb in ex.map(eval_shard, shards):
             bad += b
+            srcbad += sb
             if d2 is not None:
                 dis += d2
     ctx.note(f"validate: {len(hists)} histories (1-4 earlier programs: complete / aborted mid-trace / aborted while compiling) run in one "
@@ -161,7 +250,29 @@ def run(ctx):
                                            probe=surface.to_python(cands[probe])),
                                  observed=(a if "ok" not in a else {k: a["ok"][k] for k in ("functions", "inputs", "parties", "literals", "outputs")}),
                                  how_to_replay="write the step programs and the probe to files; tools/run_history.py <spec.json> in one process"))
+    ctx.note(f"validate: source tables (source_files, source_refs) of the probe after the history vs compiled alone (Spec/Equiv.sources_sameb): "
+             f"{len(srcbad)} differ")
+    seen_kinds = set()
+    for hi, what in sorted(srcbad):
+        steps, probe, timers = hists[hi]
+        same = (hi % 2 == 0)
+        key = f"C08/sources:{what}:" + ("same-file-name" if same and what == "files" and set(after[hi]["ok"]["source_files"]) == {"prog.py"} else "earlier-program")
+        if key in seen_kinds:
+            continue
+        seen_kinds.add(key)
+        vlib.report_failure(ctx, key, "the source tables of the probe's MIR contain material of earlier programs "
+                            + ("(the text embedded under the probe's file name is an earlier program's)" if key.endswith("same-file-name") else f"({what})"),
+                            dict(case=dict(kind="history", layout=("every program saved as prog.py in its own directory" if same else "distinct file names"),
+                                           steps=[dict(kind=k, python_source=(abort_text(cands[i], kk) if k == "abort" else
+                                                       surface.to_python(dup_input_prog(cands[i]) if k == "dup" else cands[i])))
+                                                  for k, i, kk in steps],
+                                           probe=surface.to_python(cands[probe])),
+                                 observed=dict(source_files={f: t[:120] for f, t in after[hi]["ok"]["source_files"].items()},
+                                               source_refs=after[hi]["ok"]["source_refs"][:12]),
+                                 expected=dict(source_files=list(fresh[probe]["ok"]["source_files"]), source_refs=fresh[probe]["ok"]["source_refs"][:12]),
+                                 how_to_replay="write the step programs and the probe to files; tools/run_history.py <spec.json> in one process"))
     if ok_x:
+        tie_source_tables(ctx, rng, 120 if ctx.tier == "quick" else 1500)
         ctx.note(f"tie: model run_after (state carried across programs) vs implementation on {len(hists)} histories: {len(dis)} disagree")
         ctx.cov["model_impl_disagreements"] = len(dis)
         real = [hi for hi in dis if hists[hi][2] is not True]
